@@ -93,7 +93,8 @@ class CenterSliceErrorModel(SimpleErrorModel):
                 else:
                     pN = p3  # opposing limit at intersect with 12-plane
                 # return slice and plane interest
-                return cls._normalize(cls._line_plane_intersect(pN, pO, pC - pL, pL))
+                # the intersection lies on a coordinate plane: remove rounding residue below zero
+                return cls._normalize(np.clip(cls._line_plane_intersect(pN, pO, pC - pL, pL), 0, None))
         raise QecsimError('Failed to find negative-limit.')
 
     @classmethod
